@@ -454,6 +454,10 @@ func c20(c *ctx) {
 	nKA := 0
 	runConf := func(conf c20Conf, tag string, valid bool, idx int) {
 		js, ssv := conf.toJSON(), conf.toSSV()
+		if r.intn(2) == 0 {
+			// plugin hosts do not end the option string with a semicolon: the last option (its value, its escapes) ends the string
+			ssv = strings.TrimSuffix(ssv, ";")
+		}
 		ctxd := map[string]any{"tag": tag, "json": js, "option_string": ssv}
 		var raw1, raw2 *client.RawConfig
 		var e1, e2 error
@@ -652,6 +656,10 @@ func c20(c *ctx) {
 		conf := c20Gen(r, 0)
 		conf = append(conf, c20Opt{key: "Transport", kind: 's', s: "CDN"}, c20Opt{key: "CDNWsUrlPath", kind: 's', s: path})
 		js, ssv := conf.toJSON(), conf.toSSV()
+		if r.intn(2) == 0 {
+			// plugin hosts do not end the option string with a semicolon: the last option (its value, its escapes) ends the string
+			ssv = strings.TrimSuffix(ssv, ";")
+		}
 		o.T("cfg.ssv s="+hx([]byte(ssv)), hx(client.VerifC20SsvToJson(ssv)))
 		raw1, e1 := parseJSON(js, i == 0)
 		var raw2 *client.RawConfig
